@@ -27,7 +27,7 @@ From Verif.Base Require Import Bytes.
 From Verif.Codec Require Import Packets Decode Encode.
 From Verif.Gateway Require Import GwTypes GwStep GwWf.
 From Verif.Client Require Import ClTypes ClStep.
-From Verif.System Require Import Compose ComposeProofs ComposeProofs2_aux ComposeProofs2 ComposeProofs3_aux ComposeProofs3 ComposeLoss ComposeLoss2 ComposeSleep.
+From Verif.System Require Import Compose ComposeProofs ComposeProofs2_aux ComposeProofs2 ComposeProofs3_aux ComposeProofs3 ComposeLoss ComposeLoss2 ComposeSleep ComposeSleepQ1.
 From Verif.Checkers Require Import ChkCodec ChkE2E.
 Open Scope N_scope.
 
@@ -158,6 +158,38 @@ Theorem C26_repeated_sleep_cycles :
       AwakeS cfg y' subs [].
 Proof. exact C26_sleep_cycles. Qed.
 Print Assumptions C26_repeated_sleep_cycles.
+
+(* A sleep cycle with a QoS 1 broker message, the sleep ending before the gateway's first retransmission
+   (ms < RetryDelay of the gateway; at ms = RetryDelay the retry puts a second copy into the buffer and the
+   handler runs twice: ComposeSleepQ1.sleep_q1_at_retry_duplicates).  Exact trace: DISCONNECT exchange; the
+   message is only taken from the broker; at exactly now + ms: PINGREQ (client ID), the PUBLISH, PINGRESP, the
+   client's PUBACK, ONE handler invocation, Sleep returns nil, the broker gets ONE PUBACK; the gateway ends
+   without transaction, timer or buffered packet (AwakeS). *)
+Theorem C26_sleep_cycle_with_a_qos1_message :
+  forall cfg y subs id ms s dup retain mid payload d,
+    QuietS cfg y subs -> 1000 <= ms -> ms / 1000 < 65536 ->
+    gw_keepalive (y_gw y) = 0 \/ ms / 1000 <= gw_keepalive (y_gw y) ->
+    ms < retry_delay (e_gw cfg) ->
+    In s subs -> 1 <= mid < 65536 -> okb payload = true -> okb (k_cid (e_cl cfg)) = true ->
+    (forall i, (i <= 2)%nat -> nth_fault (e_c2g cfg) (y_c2g_k y + i) = FDeliver) ->
+    (forall i, (i <= 2)%nat -> nth_fault (e_g2c cfg) (y_g2c_k y + i) = FDeliver) ->
+    ms <= d ->
+    let t := gw_now (y_gw y) in
+    let m := MqPublish dup 1 retain (sub_topic s) mid payload in
+    exists y', sys_run cfg y [SCall id (ASleep ms); SBpub m; SAdv d] =
+      ([[SoC2G t FDeliver (pack (Disconnect (ms / 1000))); SoG2C t FDeliver (pack (Disconnect 0))];
+        [SoBS t m];
+        [SoC2G (t + ms) FDeliver (pack (Pingreq (k_cid (e_cl cfg))));
+         SoG2C (t + ms) FDeliver (pack (pub_sn dup retain (sub_topic s) mid payload));
+         SoG2C (t + ms) FDeliver (pack Pingresp);
+         SoC2G (t + ms) FDeliver (pack (Puback (encode_short (sub_topic s)) mid RC_ACCEPTED));
+         SoCb (t + ms) (sub_id s) (sub_topic s) payload 1 retain dup mid;
+         SoRet (t + ms) id ROk;
+         SoBR (t + ms) (MqPuback mid)]], y') /\
+      AwakeS cfg y' subs [] /\ gw_now (y_gw y') = t + d /\ y_br y' = y_br y /\
+      y_c2g_k y' = (y_c2g_k y + 3)%nat /\ y_g2c_k y' = (y_g2c_k y + 3)%nat.
+Proof. exact C26_sleep_cycle_q1_message. Qed.
+Print Assumptions C26_sleep_cycle_with_a_qos1_message.
 
 (* the refutation, as a history of the end-to-end monitor: lossless link, the subscription in place,
    two broker messages back to back on one new topic -> clause (26,4); one after the other -> none *)
